@@ -25,7 +25,7 @@ ASSUMPTIONS = ["inputs are clean by construction and re-checked before use (harn
                "rewire() is unwound by logical budgets (thorough: proposals <= 3000*limit + 200000 and a stall window of 100000 proposals without an accepted swap; quick: 60000 proposals, stall window 15000; draws <= 50x the proposal budget); everything observed up to a stop is checked, the run is recorded as stopped",
                "a shape failure is attributed to the known finding K1 only if every shape-breaking swap carries the K1 signature"]
 HEADLINE = ["runs", "accepted_swaps", "proposals", "sig_K1", "sig_ideal", "sig_other", "shape_fail_K1", "shape_ok_swaps", "self_loop_corner_proposals",
-            "default_limit_runs", "reused_object_runs", "stopped_runs", "drawset_invariant_evals", "input_events", "created_edges"]
+            "default_limit_runs", "reused_object_runs", "list_annotation_runs", "stopped_runs", "drawset_invariant_evals", "input_events", "created_edges"]
 REQUIRED = {"quick": {"accepted_swaps": 2000, "self_loop_corner_proposals": 20, "default_limit_runs": 5, "hooks_installed": 100, "two_name_runs": 3},
             "thorough": {"accepted_swaps": 100000, "self_loop_corner_proposals": 500, "default_limit_runs": 100, "hooks_installed": 1000, "two_name_runs": 50}}
 SHARD_TIMEOUT = {"quick": 900, "thorough": 14400}
@@ -117,6 +117,12 @@ def make_network(rng, fam, N, ids="shuffled", assort=0.0, graph_cls=MonitoredGra
     else:
         classes = [tuple(c) for c in rng.sample(base, k)]
     G, info = build_clean_network(rng, N, families, classes, assort=assort, ids=ids, graph_cls=graph_cls, scramble=rng.random() < 0.5)
+    if rng.random() < 0.3:
+        # annotations as lists (hand-written / JSON-loaded joint degree sequences): mutable objects shared by a shallow graph copy
+        from gcmpy import NetworkNames as NN
+        for v in G.nodes():
+            G.nodes[v][NN.JOINT_DEGREE] = list(G.nodes[v][NN.JOINT_DEGREE])
+        info["list_annotations"] = True
     return G, info, classes
 
 
@@ -125,7 +131,11 @@ def run_rewire(res, G, names, T, params_extra, seed, budget_scale=1.0, ctx=None,
     from gcmpy import ToolsNames as TN
     net = gcmpy.Network()
     net.G = G
-    tm = sut("JointExcessJointDegreeMatrices(target)", gcmpy.JointExcessJointDegreeMatrices, {TN.EJKS: T, TN.EDGE_NAMES: list(names)})
+    order = list(T)
+    if len(order) > 1 and seed % 2:
+        order = order[::-1]            # a mapping has no order: EDGE_NAMES says which joint-degree column a topology is
+        res.count("target_dict_order_differs_from_names")
+    tm = sut("JointExcessJointDegreeMatrices(target)", gcmpy.JointExcessJointDegreeMatrices, {TN.EJKS: {n: T[n] for n in order}, TN.EDGE_NAMES: list(names)})
     params = {TN.NETWORK: net, TN.EJKS: tm}
     params.update(params_extra)
     limit = params_extra.get(TN.CONVERGENCE_LIMIT, 10 * G.number_of_edges())
@@ -228,6 +238,8 @@ def run_case(case):
             extra[TN.SEARCH_LIMIT] = rng.choice([1, 5, 25])
     if fam in ("two-name", "wedge", "c2wedge"):
         res.count("two_name_runs")
+    if info.get("list_annotations"):
+        res.count("list_annotation_runs")
     base = {"family": fam, "N": N, "classes": classes, "target": kind, "motifs": info["motifs"], "edges": G.number_of_edges(),
             "params": {str(k.value): v for k, v in extra.items()}, "seed": case["seed"]}
     quick = not case.get("thorough")
